@@ -74,6 +74,20 @@ pub fn closed_u() -> Pipeline {
     }
 }
 
+/// `from u | select {a, d} | sort {-d}`: a joined pipeline with an order of its own
+pub fn sorted_u() -> Pipeline {
+    let mut p = closed_u();
+    p.steps.push(Step::Sort(vec![(false, E::Col(1))]));
+    p
+}
+
+/// `from u | select {a, d} | take 2`: a joined pipeline with a take and no order of its own
+pub fn taking_u() -> Pipeline {
+    let mut p = closed_u();
+    p.steps.push(Step::Take(None, Some(2)));
+    p
+}
+
 /// `from u | select {a, d} | join l=(from t | select {b}) (d == l.b)`: output columns a, d, b (distinct names)
 pub fn nested_join_u() -> Pipeline {
     let mut p = closed_u();
@@ -129,6 +143,14 @@ fn menu_order_split(st: &GenState, cfg: &GenCfg) -> Vec<Step> {
         m.push(Step::Sort(vec![(false, E::Col(last))]));
         m.push(Step::Select(vec![col_item(first), col_item(last)]));
     }
+    {
+        // two columns of one bare name (the two sides of a join): a sort by both
+        let same: Vec<usize> = r.iter().cloned().filter(|&i| f.cols[i].name.as_deref() == Some("a")).collect();
+        if same.len() == 2 {
+            m.push(Step::Sort(vec![(true, E::Col(same[0])), (false, E::Col(same[1]))]));
+            m.push(Step::Sort(vec![(false, E::Col(same[1])), (true, E::Col(same[0]))]));
+        }
+    }
     if st.ordered {
         m.push(Step::Take(Some(1), Some(2)));
     }
@@ -139,6 +161,15 @@ fn menu_order_split(st: &GenState, cfg: &GenCfg) -> Vec<Step> {
             for side in [Side::Inner, Side::Left] {
                 m.push(Step::Join { side, right: Source::Sub(Box::new(closed_u())), alias: Some("r".into()), cond: Cond::EqName("a".into()) });
             }
+            // a join on other columns, so that the two `a` columns differ: a sort by both of them
+            // (same bare name, two relations) must keep both keys
+            if let Some(ib) = (0..f.cols.len()).find(|&i| f.cols[i].name.as_deref() == Some("b") && f.refname(i).is_some()) {
+                m.push(Step::Join { side: Side::Inner, right: Source::Sub(Box::new(closed_u())), alias: Some("r".into()), cond: Cond::Expr(E::bin(Op::Eq, E::Col(ib), E::Col(f.cols.len() + 1))) });
+            }
+            // joined pipelines that sort / take themselves: their order must not become the order in
+            // effect here, and the order in effect here must not select their rows
+            m.push(Step::Join { side: Side::Inner, right: Source::Sub(Box::new(sorted_u())), alias: Some("r".into()), cond: Cond::EqName("a".into()) });
+            m.push(Step::Join { side: Side::Inner, right: Source::Sub(Box::new(taking_u())), alias: Some("r".into()), cond: Cond::EqName("a".into()) });
         }
     }
     if last != first && !f.cols.iter().any(|c| matches!(c.name.as_deref(), Some("s"))) {
